@@ -1,6 +1,7 @@
 (* Proofs/DiskReadProofs.v — reading side (C07) and hostile images (disk half of C18).  TOP statements are fixed. *)
 From Coq Require Import ZArith List Bool Lia ZifyBool.
 Require Import PyBase GenDisk DiskFacts Disk ThomsonDos PyFacts DiskDefs.
+Require Import DiskFactsRead DReadBase DReadChain DReadSafe DReadExact.
 Import ListNotations.
 Open Scope Z_scope.
 Ltac Zify.zify_post_hook ::= Z.to_euclidean_division_equations.
@@ -16,7 +17,11 @@ Theorem list_files_exact : forall sd : side,
       ce_blocks e = d_blocks f /\ entry_size_blocks e = zlen (d_blocks f) /\
       entry_size_bytes e = zlen (d_content f) /\ entry_decodable e = true /\
       read_file sd e = Ok (d_content f) /\ extracted_name e = dos_label f) es fs.
-Admitted.
+Proof.
+  intros sd Ht Hn. destruct (list_files_strong sd Ht Hn) as (es & fs & Hl & Hd & HF & _).
+  exists es, fs. split; [exact Hl|]. split; [exact Hd|]. split; [eapply Forall2_len; exact HF|].
+  eapply Forall2_weaken; [|exact HF]. intros e f [H _]. exact H.
+Qed.
 
 (* TOP (C07): any well-formed image is listed and extracted exactly *)
 Theorem disk_read_exact : forall (is_fd v : bool) (raw : list Z) (img : image) (into : option (list Z)) (arch : list Z),
@@ -31,7 +36,16 @@ Theorem disk_read_exact : forall (is_fd v : bool) (raw : list Z) (img : image) (
     d_status (disk_list is_fd v raw) = 0 /\ d_crash (disk_list is_fd v raw) = None /\
     d_effects (disk_list is_fd v raw) = [] /\
     d_log (disk_list is_fd v raw) = flat_map side_log_listed (indexed files).
-Admitted.
+Proof.
+  intros is_fd v raw img into arch Hload Ht Hn Hnul.
+  destruct (image_files img Ht Hn) as (files & Hm & HF). exists files. split; [exact Hm|].
+  unfold disk_extract, disk_list. rewrite Hload. cbv zeta. fold (target_of into arch). unfold indexed.
+  match goal with |- context [read_sides v true PExtracting _ img 0 dlst0 ?pre [] []] =>
+    destruct (read_sides_exact v true PExtracting (target_of into arch) Hnul img files HF 0 dlst0 pre [] [])
+      as (E1 & E2 & E3 & E4) end.
+  destruct (read_sides_exact v false PListing [] eq_refl img files HF 0 dlst0 [] [] []) as (L1 & L2 & L3 & L4).
+  repeat split; assumption.
+Qed.
 
 (* TOP (C18): the chain walk never runs out of its fuel, whatever the table holds, and a chain
    never holds more blocks than the table *)
@@ -39,18 +53,37 @@ Theorem chain_walk_bounded : forall (bat : list Z) (first : Z),
   (length bat <= 160)%nat ->
   chain_of bat first <> Err EOther /\
   (forall bs, chain_of bat first = Ok bs -> (length bs <= 160)%nat /\ NoDup bs).
-Admitted.
+Proof.
+  intros bat first Hlen.
+  destruct (chain_of_inv bat first Hlen) as [E|(bs & E & Hnd & _ & Hl)]; rewrite E.
+  - split; [discriminate|intros bs' H; discriminate].
+  - split; [discriminate|]. intros bs' H. injection H as <-. auto.
+Qed.
 
 Theorem disk_reads_terminate : forall (is_fd v : bool) (raw : list Z) (into : option (list Z)) (arch : list Z),
   d_crash (disk_list is_fd v raw) <> Some EOther /\ d_crash (disk_extract is_fd v into arch raw) <> Some EOther.
-Admitted.
+Proof.
+  intros is_fd v raw into arch. unfold disk_list, disk_extract.
+  destruct (load_image is_fd raw) as [img|e] eqn:El.
+  - pose proof (load_image_le4 _ _ _ El) as H4. split.
+    + apply (read_sides_inv v false PListing [] img 0); [cbn; lia|constructor].
+    + apply (read_sides_inv v true PExtracting _ img 0); [cbn; lia|constructor].
+  - unfold crashed. cbn [d_crash]. unfold load_image in El. destruct raw as [|r0 raw]; [discriminate|].
+    cbv zeta in El.
+    destruct (if is_fd then load_reject_fd _ else load_reject_sd _); [injection El as <-; split; discriminate|].
+    destruct (load_reject_partial _ _ _); [injection El as <-; split; discriminate|discriminate].
+Qed.
 
 (* TOP (C18): what readFile allocates is bounded by the size of a side, whatever the catalogue says *)
+(* the payloads must be bytes (hypothesis added with the coordinator's agreement): with arbitrary Z in the
+   sectors the bound fails, e.g. table 0 -> 1 -> 0 (cycle) and a live entry whose byte 14 is 3000 give a
+   buffer of 769785 > 720896 bytes (the last block's status is not a 'last' status, nothing truncates) *)
 Theorem read_buffer_bounded : forall (sd : side) (es : list centry) (e : centry) (data : list Z),
   Forall (fun s => (length s <= 256)%nat) sd ->
+  Forall (fun s => bytesb s = true) sd ->
   list_files sd = Ok es -> In e es -> read_file sd e = Ok data ->
   zlen data <= 160 * 8 * 256 + 65536 + 160 * 8 * 256.
-Admitted.
+Proof. exact read_buffer_bound. Qed.
 
 (* TOP (C18): extract creates or modifies files only inside the destination's sideN directories *)
 Theorem disk_extract_confined : forall (is_fd v : bool) (into : option (list Z)) (arch raw : list Z) (e : effect),
@@ -59,4 +92,18 @@ Theorem disk_extract_confined : forall (is_fd v : bool) (into : option (list Z))
     (e = MkDir (side_dir (target_of into arch) i) \/
      exists l c, e = WriteFile (path_join (side_dir (target_of into arch) i) l) c /\
                  existsb (Z.eqb 47) l = false /\ existsb (Z.eqb 0) l = false).
-Admitted.
+Proof.
+  intros is_fd v into arch raw e. unfold disk_extract.
+  destruct (load_image is_fd raw) as [img|er] eqn:El; [|unfold crashed; cbn [d_effects]; intros []].
+  pose proof (load_image_le4 _ _ _ El) as H4. fold (target_of into arch).
+  match goal with |- In e (d_effects ?r) -> _ => assert (Hall : Forall (ok_eff (target_of into arch)) (d_effects r)) end.
+  { apply read_sides_inv; [cbn; lia|constructor]. }
+  intros Hin. rewrite Forall_forall in Hall. exact (Hall e Hin).
+Qed.
+
+Print Assumptions list_files_exact.
+Print Assumptions disk_read_exact.
+Print Assumptions chain_walk_bounded.
+Print Assumptions disk_reads_terminate.
+Print Assumptions read_buffer_bounded.
+Print Assumptions disk_extract_confined.
